@@ -33,9 +33,13 @@ CONSTANTS Tab,     \* tables over the string alphabet (see pylib/tables.py)
 VARIABLES dbs,    \* [db name -> [strategy, id, conns, keys : [key -> <<value, version, state>>]]]
           sess,   \* [session -> [admin, sel, user]]
           subs,   \* [db name -> [key -> sequence of sessions]]  (registrations, in order)
-          mx      \* [db name -> [key -> highest version of the current incarnation]]
+          mx,     \* [db name -> [key -> highest version of the current incarnation]]
+          skew    \* [db name -> Int] connection-count error carried by a *known deviation*;
+                  \* the reference never changes it (identically 0 without deviations)
 
-vars == <<dbs, sess, subs, mx>>
+vars == <<dbs, sess, subs, mx, skew>>
+
+SkewOf(d) == IF d \in DOMAIN skew THEN skew[d] ELSE 0
 
 On(g) == g \in Checks
 
@@ -106,16 +110,17 @@ Count(seq, x) == Cardinality({i \in DOMAIN seq : seq[i] = x})
 (* Every subscriber of (d,k) gets exactly its notifications for one change; nobody *)
 (* else gets anything.  A change notification is the pair changed / changed-version *)
 (* carrying the committed value; a removal is one `removed' line.                  *)
-ChangeNotes(w, d, k, v, ver) ==
-  On("WATCH") =>
-    \A x \in DOMAIN w.notes \cup {SubsOf(d,k)[i] : i \in DOMAIN SubsOf(d,k)} :
+ChangeNotesTo(w, ss, k, v, ver) ==
+    \A x \in DOMAIN w.notes \cup {ss[i] : i \in DOMAIN ss} :
       LET got == NotesOf(w, x)
-          n   == Count(SubsOf(d,k), x)
+          n   == Count(ss, x)
       IN /\ Len(got) = 2 * n
          /\ \A i \in 1..n :
               /\ got[2*i-1].t = "changed" /\ got[2*i-1].k = k /\ got[2*i-1].v = v
               /\ got[2*i].t = "cv" /\ got[2*i].k = k /\ got[2*i].v = v
               /\ (ver # -99 => got[2*i].ver = ver)
+
+ChangeNotes(w, d, k, v, ver) == On("WATCH") => ChangeNotesTo(w, SubsOf(d, k), k, v, ver)
 
 RemoveNotes(w, d, k) ==
   On("WATCH") =>
@@ -198,11 +203,11 @@ OpenOn(SS, d) == Cardinality({x \in DOMAIN SS : SS[x].sel = d})
 
 ConnsRight(SS, w) ==
   On("CONN") => \A d \in DOMAIN w.dbs : d # "$admin" =>
-     /\ w.dbs[d].conns = OpenOn(SS, d)
+     /\ w.dbs[d].conns = OpenOn(SS, d) + SkewOf(d)
      /\ (OpenOn(SS,d) > 0 \/ Has(w.dbs, d, "$connections")) =>
            /\ Live(w.dbs, d, "$connections")
            /\ IsNum(Val(w.dbs, d, "$connections"))
-           /\ IntOf(Val(w.dbs, d, "$connections")) = OpenOn(SS, d)
+           /\ IntOf(Val(w.dbs, d, "$connections")) = OpenOn(SS, d) + SkewOf(d)
 
 UseDb(c, o, w) ==
   /\ o.op = "use-db"
@@ -214,7 +219,8 @@ UseDb(c, o, w) ==
                 (UnchangedBut(w, o.d, {"$connections"}) /\ NoSideEffects(w))
           /\ ConnsRight(sess', w)
           /\ (On("CONN") /\ o.d # "$admin" /\ Has(w.dbs, o.d, "$connections")) =>
-                ChangeNotes(w, o.d, "$connections", Val(w.dbs, o.d, "$connections"), -99)
+                ChangeNotesTo(w, SubsOf(o.d, "$connections"), "$connections",
+                              Val(w.dbs, o.d, "$connections"), -99)
      ELSE /\ UNCHANGED sess
           /\ (On("READ") \/ On("AUTH")) => (Unchanged(w) /\ NoSideEffects(w))
           /\ ConnsRight(sess, w)
@@ -233,6 +239,9 @@ Close(c, w) ==
   /\ (On("READ") \/ On("AUTH")) =>
         (UnchangedBut(w, S(c).sel, {"$connections"}) /\ NoSideEffects(w))
   /\ ConnsRight(sess', w)
+  /\ (On("CONN") /\ S(c).sel \notin {"-", "$admin"} /\ Has(w.dbs, S(c).sel, "$connections")) =>
+        ChangeNotesTo(w, SelectSeq(SubsOf(S(c).sel, "$connections"), LAMBDA x : x # c),
+                      "$connections", Val(w.dbs, S(c).sel, "$connections"), -99)
   /\ dbs' = w.dbs
   /\ mx' = MxAfter(w)
 
@@ -462,8 +471,7 @@ Snapshot(c, o, w) ==
   /\ Authorised(c, o)
   /\ IF (o.names = <<>> /\ ~HasSel(c)) \/ (\E i \in DOMAIN o.names : ~HasDb(o.names[i]))
      THEN On("AUTH") => (Refused(w.cls) /\ Unchanged(w) /\ NoSideEffects(w))
-     ELSE /\ Success(w.cls)
-          /\ On("READ") => Unchanged(w)
+     ELSE On("READ") => (Success(w.cls) /\ Unchanged(w))
   /\ SilentNotes(w)
   /\ dbs' = w.dbs
   /\ UNCHANGED <<sess, subs, mx>>
@@ -511,22 +519,23 @@ Unauthorised(c, o, w) ==
           /\ Refused(w.cls) => (On("READ") => Unchanged(w))
 
 Cmd(c, o, w) ==
-  \/ Auth(c, o, w)
-  \/ UseDb(c, o, w)
-  \/ Get(c, o, w)
-  \/ KeysCmd(c, o, w)
-  \/ SetNone(c, o, w)
-  \/ SetNewer(c, o, w)
-  \/ Remove(c, o, w)
-  \/ Increment(c, o, w)
-  \/ Watch(c, o, w)
-  \/ Unwatch(c, o, w)
-  \/ CreateDb(c, o, w)
-  \/ AdminWrite(c, o, w)
-  \/ AdminOther(c, o, w)
-  \/ Snapshot(c, o, w)
-  \/ ReplicateCmd(c, o, w)
-  \/ Other(c, o, w)
-  \/ Garbage(c, o, w)
-  \/ Unauthorised(c, o, w)
+  /\ UNCHANGED skew
+  /\ \/ Auth(c, o, w)
+     \/ UseDb(c, o, w)
+     \/ Get(c, o, w)
+     \/ KeysCmd(c, o, w)
+     \/ SetNone(c, o, w)
+     \/ SetNewer(c, o, w)
+     \/ Remove(c, o, w)
+     \/ Increment(c, o, w)
+     \/ Watch(c, o, w)
+     \/ Unwatch(c, o, w)
+     \/ CreateDb(c, o, w)
+     \/ AdminWrite(c, o, w)
+     \/ AdminOther(c, o, w)
+     \/ Snapshot(c, o, w)
+     \/ ReplicateCmd(c, o, w)
+     \/ Other(c, o, w)
+     \/ Garbage(c, o, w)
+     \/ Unauthorised(c, o, w)
 =============================================================================
